@@ -60,6 +60,7 @@ type frame struct {
 	panicking *goPanic
 	recovered bool
 	caller    *frame
+	skipPhis  bool
 }
 
 type deferred struct {
@@ -95,6 +96,7 @@ type Exec struct {
 	flags    map[string]int64
 	killedBy string
 
+	specMark      int
 	curDeferFrame *frame
 	allocEvents   []allocEvent
 	cuts          int
@@ -120,6 +122,7 @@ type Obligation struct {
 	Path   []Decision
 	TimeMs int64
 	Known  string
+	Choices map[string]int64
 }
 
 func (ex *Exec) newObj(site string) *Obj {
@@ -166,7 +169,11 @@ func (ex *Exec) feasible(c *Term) Result {
 		return Unsat
 	}
 	ex.w.stats.FeasQ++
-	return ex.w.solver.Check(ex.pc, c)
+	r := ex.w.solver.Check(ex.pc, c)
+	if r == Unknown {
+		r, _, _ = ex.w.fallback(ex.pc, []*Term{c}, nil, "", 20)
+	}
+	return r
 }
 
 // decide resolves a symbolic branch condition, forking when both outcomes
@@ -556,6 +563,11 @@ func (ex *Exec) visit(fr *frame, ins ssa.Instruction) cont {
 	if p := ins.Pos(); p.IsValid() {
 		ex.curPos = p
 	}
+	if fr.skipPhis {
+		if _, isPhi := ins.(*ssa.Phi); !isPhi {
+			fr.skipPhis = false
+		}
+	}
 	switch ins := ins.(type) {
 	case *ssa.DebugRef:
 	case *ssa.UnOp:
@@ -624,9 +636,12 @@ func (ex *Exec) visit(fr *frame, ins ssa.Instruction) cont {
 		ex.store(ex.get(fr, ins.Addr).(Ptr), ex.get(fr, ins.Val), ins.Pos())
 	case *ssa.If:
 		c := ex.get(fr, ins.Cond).(*Term)
-		if !c.IsConst() && ex.inSpec == 0 && ex.w.cfg.IfConvert {
-			if ex.tryIfConvert(fr, ins, c) {
+		if !c.IsConst() && ex.w.cfg.IfConvert {
+			switch ex.tryIfConvert(fr, ins, c) {
+			case 1:
 				return kJump
+			case 2:
+				return kReturn
 			}
 		}
 		succ := 1
@@ -648,6 +663,9 @@ func (ex *Exec) visit(fr *frame, ins ssa.Instruction) cont {
 		}
 		fr.env[ins] = &Closure{ins.Fn.(*ssa.Function), env}
 	case *ssa.Phi:
+		if fr.skipPhis {
+			break
+		}
 		for i, pred := range ins.Block().Preds {
 			if fr.prev == pred {
 				fr.env[ins] = ex.get(fr, ins.Edges[i])
@@ -657,9 +675,6 @@ func (ex *Exec) visit(fr *frame, ins ssa.Instruction) cont {
 	case *ssa.MakeChan:
 		panic(stopf(StopUnsupported, "MakeChan"))
 	case *ssa.Alloc:
-		if ex.inSpec > 0 {
-			panic(specAbort{"alloc"})
-		}
 		cell := new(Value)
 		*cell = ex.zero(ins.Type().Underlying().(*types.Pointer).Elem())
 		fr.env[ins] = Ptr{c: cell, o: ex.newObj(ex.posStr(ins.Pos()))}
@@ -770,7 +785,7 @@ func (ex *Exec) noteWrite(o *Obj, pos token.Pos, what string) {
 }
 
 func (ex *Exec) store(p Ptr, v Value, pos token.Pos) {
-	if ex.inSpec > 0 {
+	if ex.inSpec > 0 && (p.o == nil || p.o.id <= ex.specMark) {
 		panic(specAbort{"store"})
 	}
 	if p.isNil() {
@@ -809,6 +824,13 @@ func (ex *Exec) iteVal(c *Term, a, b Value) Value {
 	case Array:
 		y := b.(Array)
 		r := make(Array, len(x))
+		for i := range x {
+			r[i] = ex.iteVal(c, x[i], y[i])
+		}
+		return r
+	case Tuple:
+		y := b.(Tuple)
+		r := make(Tuple, len(x))
 		for i := range x {
 			r[i] = ex.iteVal(c, x[i], y[i])
 		}
@@ -918,6 +940,7 @@ func (ex *Exec) fieldAddr(p Ptr, field int, pos token.Pos) Ptr {
 // boundsCheck enforces 0 <= idx < n and returns the (possibly narrowed) idx.
 func (ex *Exec) boundsCheck(idx *Term, signed bool, n int, pos token.Pos, what string) {
 	tb := ex.tb
+	idx = ex.ext64(idx, signed)
 	var ok *Term
 	nn := tb.Const(idx.w, uint64(n))
 	if signed {
